@@ -2,8 +2,8 @@
 from . import srvrules as R
 from .sockrules import FLAVOURS
 
-META = {'level': 'other', 'explanation': 'see DESIGN.md 5/C11', 'trusted_base': [],
-        'not_decided': [], 'assumptions': []}
+from .meta import meta
+META = meta('C11', level='other', extra_tb=None)
 
 
 def check(A):
